@@ -45,7 +45,7 @@ def profile(ci):
                            gm.DEFAULT_PROFILE['route_arg_kinds'],
                            route_result_kinds=('struct', 'union', 'void', 'alias') if ci % 3 else None,
                            route_alias_user_only=bool(ci % 3),
-                           p_route_container_result=0.25, p_sparse_namespace=0.2,
+                           p_route_container_result=0.25, p_sparse_namespace=0.2, p_container_of_root=0.08,
                            p_ts_bytes_default=0.1 if ci % 5 == 0 else 0.0,
                            p_three_part_field_ref=0.3 if ci % 7 == 0 else 0.0)
 
